@@ -67,12 +67,20 @@ static int32 last_ydim = 0; /* .....gheesh......... */
 int
 DF24getdims(const char *filename, int32 *pxdim, int32 *pydim, int *pil)
 {
-    int ncomps;
-    int ret_value = SUCCEED;
+    int    ncomps;
+    uint16 skipped   = 0; /* group skipped last time round because it does not hold a 24-bit image */
+    int    ret_value = SUCCEED;
 
     do {
         if (DFGRIgetdims(filename, pxdim, pydim, &ncomps, pil, IMAGE) < 0)
             HGOTO_ERROR(DFE_NODIM, FAIL);
+        if (ncomps != 3) {
+            /* a group without image data does not move the read position: asking again would
+               return the same group forever */
+            if (DFGRIlastref() == skipped)
+                HGOTO_ERROR(DFE_NODIM, FAIL);
+            skipped = DFGRIlastref();
+        }
     } while (ncomps != 3);
 
     last_xdim = *pxdim;
